@@ -92,6 +92,14 @@ Theorem C16_levenshtein_dp_matches_recursive_definition_bounded :
 Proof. exact lev_dp_matches_spec_bounded. Qed.
 Print Assumptions C16_levenshtein_dp_matches_recursive_definition_bounded.
 
+Theorem C16_damerau_levenshtein_level :
+  forall P env cl cr t a b tq,
+    eval P (std_fenv []) env cl = VStr a -> eval P (std_fenv []) env cr = VStr b -> numQ t = Some tq ->
+    sem P (std_fenv []) env (gen_fn_thresh "damerau_levenshtein" false cl cr t)
+    = doc_le (inject_Z (Z.of_nat (dam_lev a b))) tq.
+Proof. exact sem_dl_std. Qed.
+Print Assumptions C16_damerau_levenshtein_level.
+
 Theorem C16_jaccard_level :
   forall P env cl cr t a b tq,
     eval P (std_fenv []) env cl = VStr a -> eval P (std_fenv []) env cr = VStr b -> numQ t = Some tq ->
@@ -212,6 +220,48 @@ Theorem C16_km_level :
 Proof. exact sem_km. Qed.
 Print Assumptions C16_km_level.
 
+(* DistanceInKMLevel is monotone: in the threshold, and in the haversine sum (closer pairs are accepted whenever
+   farther ones are), for ANY interpretation of acos that is antitone on [-1, 1] *)
+Theorem C16_km_monotone :
+  forall P fenv (acosf : Q -> Q) fty,
+    (forall v q, numQ v = Some q -> fenv "acos"%string [v] = VNum (acosf q)) ->
+    (forall x y, (-1 <= x)%Q -> (x <= y)%Q -> (y <= 1)%Q -> (acosf y <= acosf x)%Q) ->
+    (forall x, fenv ("cast:" ++ fty)%string [VNum x] = VNum x) ->
+    (forall env latl latr lngl lngr t1 t2 q q1 q2,
+        numQ (eval P fenv env (km_partial latl latr lngl lngr)) = Some q ->
+        numQ t1 = Some q1 -> numQ t2 = Some q2 -> (q1 <= q2)%Q ->
+        sem P fenv env (gen_km fty false latl latr lngl lngr t1) = T ->
+        sem P fenv env (gen_km fty false latl latr lngl lngr t2) = T) /\
+    (forall env1 env2 latl latr lngl lngr t tq qa qb,
+        numQ (eval P fenv env1 (km_partial latl latr lngl lngr)) = Some qa ->
+        numQ (eval P fenv env2 (km_partial latl latr lngl lngr)) = Some qb ->
+        (qa <= qb)%Q -> numQ t = Some tq ->
+        sem P fenv env1 (gen_km fty false latl latr lngl lngr t) = T ->
+        sem P fenv env2 (gen_km fty false latl latr lngl lngr t) = T).
+Proof.
+  intros P fenv acosf fty H1 H2 H3. split.
+  - exact (km_monotone_threshold P fenv acosf fty H1 H3).
+  - exact (km_monotone_distance P fenv acosf fty H1 H2 H3).
+Qed.
+Print Assumptions C16_km_monotone.
+
+(* ---- PairwiseStringDistanceFunctionLevel: TRUE iff SOME pair of the cross product meets the threshold ---- *)
+Theorem C16_pairwise_level :
+  forall P fenv env f higher cl cr t la lb (m : string -> string -> Q) tq,
+    eval P fenv env cl = VArr la -> eval P fenv env cr = VArr lb ->
+    (forall x y, fenv f [VStr x; VStr y] = VNum (m x y)) -> numQ t = Some tq -> pair_values m la lb <> [] ->
+    sem P fenv env (gen_pairwise f higher cl cr t) =
+    of_bool (existsb (fun q => if higher then Qle_bool tq q else Qle_bool q tq) (pair_values m la lb)).
+Proof. exact sem_pairwise. Qed.
+Print Assumptions C16_pairwise_level.
+
+Theorem C16_pairwise_level_empty_array_unknown :
+  forall P fenv env f higher cl cr t la lb,
+    eval P fenv env cl = VArr la -> eval P fenv env cr = VArr lb -> cross la lb = [] ->
+    sem P fenv env (gen_pairwise f higher cl cr t) = U.
+Proof. exact sem_pairwise_empty. Qed.
+Print Assumptions C16_pairwise_level_empty_array_unknown.
+
 (* ---- And / Or / Not follow SQL three-valued logic ---- *)
 Theorem C16_and_or_not_follow_3vl :
   forall P fenv env,
@@ -297,6 +347,13 @@ Example C16_example_null :
   let env := fun (s : bool) (_ : string) => if s then VNull else VStr "x" in
   level_of sqlite_profile (std_fenv []) env (ex_levels 1 2) = 0 /\
   sem sqlite_profile (std_fenv []) env (ex_lev 1) = U.
+Proof. vm_compute. auto. Qed.
+Example C16_example_pairwise :
+  let env := fun (s : bool) (_ : string) => if s then VArr ["smith"; "jones"] else VArr ["brown"; "jonse"] in
+  sem duckdb_profile (std_fenv []) env (gen_pairwise "levenshtein" false (ECol true "arr") (ECol false "arr") (VInt 2)) = T /\
+  sem duckdb_profile (std_fenv []) env (gen_pairwise "damerau_levenshtein" false (ECol true "arr") (ECol false "arr") (VInt 1)) = T /\
+  sem duckdb_profile (std_fenv []) env (gen_pairwise "levenshtein" false (ECol true "arr") (ECol false "arr") (VInt 1)) = F /\
+  dam_lev "ca" "abc" = 2 /\ lev "ca" "abc" = 3.
 Proof. vm_compute. auto. Qed.
 Example C16_example_month_seconds :
   time_threshold_seconds (VInt 1) MMonth = VNum 2629800 /\ time_threshold_seconds (VInt 2) MHour = VInt 7200.
